@@ -78,6 +78,19 @@ pub fn graph_doc(g: &Value) -> Option<Value> {
                 }
                 json!({"oneOf": vs})
             }
+            "flat" => {
+                // anyOf over object definitions that are not mutually exclusive: typify models it
+                // as a struct of flattened optional members (each a by-value containment edge)
+                if out_edges[i].is_empty() || out_edges[i].iter().any(|(t, _)| kinds[*t] != "struct") {
+                    return None;
+                }
+                let mut seen = std::collections::BTreeSet::new();
+                let bs: Vec<Value> = out_edges[i].iter().filter(|(t, _)| seen.insert(*t)).map(|(t, _)| json!({"$ref": format!("#/definitions/{}", def_name(*t))})).collect();
+                if bs.len() < 2 {
+                    return None;
+                }
+                json!({"anyOf": bs})
+            }
             "alias" => {
                 // exactly one outgoing edge, which must be a plain reference
                 match out_edges[i].as_slice() {
@@ -136,13 +149,27 @@ fn graph(kinds: &[&str], edges: Vec<(usize, usize, &str)>, compile: bool) -> Val
 
 fn random_graph(g: &mut G) -> Value {
     let n = 1 + g.below(8);
-    let kinds: Vec<&str> = (0..n).map(|_| *g.pick(&["struct", "struct", "struct", "enum", "alias"])).collect();
+    let mut kinds: Vec<&str> = (0..n).map(|_| *g.pick(&["struct", "struct", "struct", "enum", "alias"])).collect();
+    // sometimes one node is an anyOf over two or three struct nodes (flattened members)
+    let structs: Vec<usize> = (0..n).filter(|i| kinds[*i] == "struct").collect();
+    let mut flat_edges: Vec<(usize, usize, &str)> = vec![];
+    if structs.len() >= 3 && g.chance(1, 3) {
+        let f = structs[0];
+        kinds[f] = "flat";
+        for t in structs.iter().skip(1).take(2 + g.below(2)) {
+            flat_edges.push((f, *t, "variant"));
+        }
+    }
     let m = g.below(17);
     let mut edges = vec![];
     let mut alias_used = vec![false; n];
+    edges.extend(flat_edges.iter().cloned());
     for _ in 0..m {
         let f = g.below(n);
         let t = g.below(n);
+        if kinds[f] == "flat" {
+            continue;
+        }
         if kinds[f] == "alias" {
             if alias_used[f] {
                 continue;
@@ -163,7 +190,7 @@ impl Property for C07 {
         "C07"
     }
     fn rule(&self) -> String {
-        "directed multigraphs over n definitions (node kinds struct / newtype alias / externally tagged enum; edge kinds required, optional, nullable, tuple element, fixed-array element, alias, variant payload, plus the heap kinds array items and map value): exhaustive for n=1 (multisets of up to 3 self-loops) and n=2 (at most one edge per ordered pair, 9 edge kinds, all node kinds), a reduced alphabet for n=3 in the thorough tier, random for n<=8 with 0-16 edges; graphs made of bare alias cycles are outside the domain; non-trivial = the schema-level containment graph has a cycle; distinct by canonical graph".into()
+        "directed multigraphs over n definitions (node kinds struct / newtype alias / externally tagged enum / anyOf over non-exclusive objects (flattened members); edge kinds required, optional, nullable, tuple element, fixed-array element, alias, variant payload, plus the heap kinds array items and map value): exhaustive for n=1 (multisets of up to 3 self-loops) and n=2 (at most one edge per ordered pair, 9 edge kinds, all node kinds), a reduced alphabet for n=3 in the thorough tier, random for n<=8 with 0-16 edges; graphs made of bare alias cycles are outside the domain; non-trivial = the schema-level containment graph has a cycle; distinct by canonical graph".into()
     }
     fn assumptions(&self) -> Vec<String> {
         vec![
@@ -239,6 +266,19 @@ impl Property for C07 {
                         }
                     }
                 }
+            }
+        }
+        // anyOf (flattened) node over two structs, each of which may point back
+        for back0 in [None, Some("req"), Some("opt"), Some("nullable"), Some("vec")] {
+            for back1 in [None, Some("req"), Some("opt"), Some("tuple")] {
+                let mut edges = vec![(0usize, 1usize, "variant"), (0, 2, "variant")];
+                if let Some(k) = back0 {
+                    edges.push((1, 0, k));
+                }
+                if let Some(k) = back1 {
+                    edges.push((2, 0, k));
+                }
+                out.push(graph(&["flat", "struct", "struct"], edges, back0 == Some("opt")));
             }
         }
         if tier == Tier::Thorough {
